@@ -20,7 +20,8 @@ RULE = ("Cases: a batch of 1-5 distinct generated three-component miniSEED files
         "methods, single azimuth, azimuthal, diffuse field; fft_settings null / {'n': null} / {'n': 32768}) written to "
         "settings files, --no_figure, both distribution options. The CLI runs in its own temporary directory; the oracle for "
         "each file is produced by a fresh interpreter running read -> preprocess -> process -> write on that file alone. "
-        "Non-trivial = a pool chunk holds >= 2 files whose stand-alone FFT lengths (or sampling rates) differ; distinct by "
+        "In a third of the cases the batch mixes miniSEED, SAF, MiniShark and SAF-converted-from-MiniShark files. "
+        "Non-trivial = a pool chunk holds >= 2 files whose stand-alone FFT lengths, sampling rates or formats differ; distinct by "
         "SHA-1 of the case.")
 ASSUMPTIONS = [
     "the operating system decides which pool worker takes which chunk; the harness owns the batch, its order and --nproc and records the chunking they induce (chunksize = max(1, ntasks // nproc))",
@@ -42,6 +43,14 @@ def strategy(draw):
         files.append(dict(fs=draw(gen.choice(FS)), duration=draw(st.integers(145, 215)), seed=draw(gen.seeds32)))
     if nfiles >= 2 and draw(st.booleans()):
         files[0]["fs"], files[1]["fs"] = 500, 100       # the longer stand-alone FFT first
+    if draw(gen.chance(3)):
+        # mixed formats in one batch: text formats (SAF, MiniShark) next to miniSEED, incl. a SAF file converted from a
+        # MiniShark recording that keeps the original header as '#' comment lines and tab-separated columns
+        for fdesc in files:
+            fdesc["fmt"] = draw(gen.choice(["minishark", "saf", "mseed", "saf-from-minishark", "minishark", "saf-from-minishark"]))
+            if fdesc["fmt"] != "mseed":
+                fdesc["fs"] = draw(st.sampled_from([100, 200]))
+                fdesc["north_rot"] = draw(st.sampled_from([0, 30, 75]))
     method = draw(gen.choice(["geometric_mean", "squared_average", "single_azimuth", "azimuthal", "diffuse_field", "maximum_horizontal_value"]))
     return dict(files=files, nproc=draw(gen.choice([1, 2, 1, 3, 1, 5, 2, 1])), method=method,
                 fft=draw(gen.choice([None, "record-length", 32768, None])), filter=draw(gen.choice([[0.8, 15.0], [None, None], [None, None], [0.8, 15.0]])),
@@ -59,6 +68,28 @@ def _write_mseed(path, spec):
         x = np.cumsum(g.standard_normal(n)).astype(np.float32) * 0.01 + g.standard_normal(n).astype(np.float32)
         traces.append(Trace(data=x.astype(np.float32), header=dict(sampling_rate=float(spec["fs"]), channel=ch, network="VF", station="S", starttime=UTCDateTime(2021, 1, 1))))
     Stream(traces).write(path, format="MSEED")
+
+
+def _write_text(path, spec):
+    """SAF / MiniShark / SAF-converted-from-MiniShark file with integer counts (columns V N E)."""
+    n = spec["fs"] * spec["duration"] + 1
+    g = np.random.Generator(np.random.PCG64(spec["seed"]))
+    cols = [(np.cumsum(g.standard_normal(n)) * 3 + g.standard_normal(n) * 300).astype(np.int64) for _ in range(3)]
+    fmt = spec["fmt"]
+    sep = " " if fmt == "saf" else "\t"
+    rows = "\n".join(f"{a}{sep}{b}{sep}{c}" for a, b, c in zip(*cols)) + "\n"
+    shark = ["#MiniShark generated file", "#Original file name:\tgenerated", f"#Sample rate (sps):\t{spec['fs']}", f"#Sample number:\t{n}",
+             "#Gain:\t2", "#Conversion factor:\t1000", "#Channel order:\tV\tN\tE", "#Data:"]
+    saf = ["SESAME ASCII data format (saf) v. 1    (this line must not be modified)", f"SAMP_FREQ = {spec['fs']}", f"NDAT = {n:010d}",
+           "START_TIME = 2021 11 22 13 31 10.000", "UNITS = Counts", f"NORTH_ROT = {spec.get('north_rot', 0)}", "CH0_ID = V", "CH1_ID = N", "CH2_ID = E"]
+    if fmt == "minishark":
+        text = "\n".join(shark) + "\n" + rows
+    elif fmt == "saf":
+        text = "\n".join(saf + ["####--------------------------------"]) + "\n" + rows
+    else:
+        text = "\n".join(saf + ["# converted from:"] + shark + ["####--------------------------------"]) + "\n" + rows
+    with open(path, "w", newline="") as fh:
+        fh.write(text)
 
 
 def _settings_files(hv, case, tmp):
@@ -97,8 +128,14 @@ def check_case(case):
             os.makedirs(d)
         fnames = []
         for i, spec in enumerate(case["files"]):
-            p = os.path.join(data_dir, f"rec{i}_{spec['fs']}hz.mseed")
-            _write_mseed(p, spec)
+            fmt = spec.get("fmt", "mseed")
+            if fmt == "mseed":
+                p = os.path.join(data_dir, f"rec{i}_{spec['fs']}hz.mseed")
+                _write_mseed(p, spec)
+            else:
+                p = os.path.join(data_dir, f"rec{i}_{spec['fs']}hz.{'minishark' if fmt == 'minishark' else 'saf'}")
+                _write_text(p, spec)
+                labels.append("fmt=" + fmt)
             fnames.append(p)
         pre_file, proc_file = _settings_files(hv, case, tmp)
         cli_code = f"import sys; sys.path.insert(0, {REPO!r}); import hvsrpy, os; assert os.path.abspath(hvsrpy.__file__).startswith({REPO!r}); from hvsrpy.cli import cli; cli()"
@@ -152,6 +189,9 @@ def check_case(case):
         inherit = any(len(ch) >= 2 and any(standalone_n(case["files"][ch[a]]) > standalone_n(case["files"][ch[b]]) for a in range(len(ch)) for b in range(a + 1, len(ch))) for ch in chunks)
         if inherit:
             labels.append("inherit-risk")
+        if any(len({case["files"][j].get("fmt", "mseed") for j in ch}) >= 2 for ch in chunks):
+            labels.append("mixed-formats-in-one-chunk")
+            risky = True
         labels.append(f"chunks={[len(c) for c in chunks]}")
     finally:
         shutil.rmtree(tmp, ignore_errors=True)
